@@ -2,7 +2,15 @@
 
 package main
 
-import "fmt"
+import (
+	"bytes"
+	"context"
+	"fmt"
+	"testing/fstest"
+	"time"
+
+	"github.com/titpetric/vuego"
+)
 
 // c06PropNames: every bound attribute of a <slot> is a prop of that slot use - whatever the prop is called. Prop names that mean
 // something on OTHER tags (name, slot, is, key, include, required ...) are plain props here: the unnamed slot stays the unnamed slot,
@@ -42,4 +50,50 @@ func c06PropNames() []c06Case {
 		})
 	}
 	return out
+}
+
+// c06History: what one render supplied for a slot is supplied for THAT render only. On one engine (and on a second engine of the same
+// process) a page hands a named slot to its layout, which passes it on to a component included without any content of its own; afterwards
+// the same component is included - again without content - by pages that supply nothing: it renders its fallback, exactly as on a fresh
+// engine, whatever was rendered before.
+func c06History(r *Run) {
+	for _, inc := range []struct{ name, tag string }{
+		{"childless", `<template include="box.vuego"></template>`}, {"newline-child", "<template include=\"box.vuego\">\n</template>"},
+		{"shorthand", `<note-box></note-box>`}, {"with-prop", `<template include="box.vuego" k="v"></template>`},
+	} {
+		files := map[string]string{
+			"a.vuego":                 "---\nlayout: main\n---\n<template #note><b>note of {{ who }}</b></template><p>body {{ who }}</p>",
+			"layouts/main.vuego":      `<div>` + inc.tag + `<i>{{ who }}</i></div>`,
+			"box.vuego":               `<aside><slot name="note"><em>default note</em></slot></aside>`,
+			"components/NoteBox.vuego": `<aside><slot name="note"><em>default note</em></slot></aside>`,
+			"b.vuego":                 `<section>` + inc.tag + `</section>`,
+			"c.vuego":                 "---\nlayout: main\n---\n<p>page without slots {{ who }}</p>",
+		}
+		mfs := fstest.MapFS{}
+		for n, c := range files {
+			mfs[n] = &fstest.MapFile{Data: []byte(c), ModTime: time.Unix(1700000000, 0)}
+		}
+		render := func(t vuego.Template, page, who string) string {
+			var buf bytes.Buffer
+			if err := t.Load(page).Fill(map[string]any{"who": who}).Render(context.Background(), &buf); err != nil {
+				return "ERROR: " + err.Error()
+			}
+			return c06WsRe.ReplaceAllString(c06TagRe.ReplaceAllString(buf.String(), ""), "")
+		}
+		one := vuego.NewFS(mfs, vuego.WithComponents())
+		steps := []struct{ page, who, want string }{
+			{"b.vuego", "x", "defaultnote"}, {"a.vuego", "A", "noteofAA"}, {"b.vuego", "x", "defaultnote"}, {"c.vuego", "C", "defaultnoteC"},
+			{"a.vuego", "B", "noteofBB"}, {"b.vuego", "y", "defaultnote"}, {"c.vuego", "D", "defaultnoteD"},
+		}
+		for i, st := range steps {
+			got := render(one, st.page, st.who)
+			fresh := render(vuego.NewFS(mfs, vuego.WithComponents()), st.page, st.who) // another engine of the same process
+			name := fmt.Sprintf("slot history %s step %d (%s)", inc.name, i, st.page)
+			c := &Case{Name: name, Key: name, Input: map[string]any{"stream": "history", "include": inc.name, "step": i}, Impl: map[string]any{"out": got, "fresh": fresh}, Oracle: &Verdict{OK: true}, Tags: []string{"stream:history", "include:" + inc.name}}
+			if got != st.want || fresh != st.want {
+				c.Oracle = &Verdict{OK: false, Class: "slot-content-outlives-its-render:" + inc.name, Detail: fmt.Sprintf("step %d renders %s: the engine in use gives %q, a new engine %q, expected %q (the steps before: %v)", i, st.page, got, fresh, st.want, steps[:i])}
+			}
+			r.Add(c)
+		}
+	}
 }
